@@ -219,6 +219,44 @@ func TestC13(t *testing.T) {
 					}
 					m.define(local)
 				},
+				"redefineVariant": func(rt *rapid.T) {
+					// re-emit an existing definition with exactly one aspect
+					// changed: byte order only, or one field dropped, or the
+					// field list reversed
+					if m.finished {
+						rt.Skip("ended")
+					}
+					var defined []int
+					for l := 0; l < 16; l++ {
+						if m.slots[l] != nil && !(l == fidLocal && m.slots[l].Global == 0) {
+							defined = append(defined, l)
+						}
+					}
+					if len(defined) == 0 {
+						rt.Skip("nothing defined")
+					}
+					l := defined[d.Int(0, len(defined)-1, "which")]
+					def := *m.slots[l]
+					def.Fields = append([]fitmodel.FieldDef(nil), def.Fields...)
+					switch d.Int(0, 3, "variant") {
+					case 0, 1:
+						def.BigEndian = !def.BigEndian
+						m.labels["redefinition-byte-order-only"]++
+						m.labels["redefinition-other-byte-order"]++
+					case 2:
+						if len(def.Fields) > 1 {
+							def.Fields = def.Fields[:len(def.Fields)-1]
+						}
+					default:
+						for i, j := 0, len(def.Fields)-1; i < j; i, j = i+1, j-1 {
+							def.Fields[i], def.Fields[j] = def.Fields[j], def.Fields[i]
+						}
+					}
+					m.labels["redefinition"]++
+					m.s.Recs = append(m.s.Recs, def)
+					dc := def
+					m.slots[l] = &dc
+				},
 				"data": func(rt *rapid.T) {
 					if m.finished {
 						rt.Skip("ended")
